@@ -347,6 +347,54 @@ def bounded(sess: Session):
                               functions=('wn._queries.find_lexicons',))
 
 
+def remove_selection_bounded(sess: Session):
+    """wn.remove(specifier) removes exactly what wn.lexicons(specifier) selects (evaluated before anything is deleted),
+    together with the extensions of the selected lexicons: a real database with three versions of one id, an extension
+    and an unrelated lexicon x specifier lists in which a bare id follows a specifier that selects its newest version."""
+    import shutil
+    import wn._db
+    old = wn.config.data_directory
+    tmp = tempfile.mkdtemp(prefix='wnverif_rm_')
+    bad, cases = [], 0
+    try:
+        wn.config.data_directory = tmp
+        order = [('a', '1', 'en'), ('a', '2', 'en'), ('a', '3', 'en'), ('b', '1', 'de')]
+        files = {}
+        for k, (lid, ver, lang) in enumerate(order):
+            p = os.path.join(tmp, f'l{k}.xml')
+            open(p, 'w').write(TEMPLATE.format(id=lid, ver=ver, lang=lang, n=k))
+            files[f'{lid}:{ver}'] = p
+            wn.add(p, progress_handler=None)
+        for spec in ('a:3 a', 'a a', 'a b:* a', 'b a:3 a:2 a', 'a:* a', 'a:2 a', 'a? a', 'b a'):
+            before = [x.specifier() for x in wn.lexicons()]
+            want = sorted(x.specifier() for x in wn.lexicons(lexicon=spec))
+            cases += 1
+            wn.remove(spec, progress_handler=None)
+            after = [x.specifier() for x in wn.lexicons()]
+            removed = sorted(set(before) - set(after))
+            if removed != want:
+                bad.append({'installed': before, 'specifier': spec, 'selected': want, 'removed': removed})
+            for sp_ in [f'{i}:{v}' for i, v, _ in order if f'{i}:{v}' in removed]:
+                wn.add(files[sp_], progress_handler=None)
+            # restoring changes the rowid order: re-install everything in the original order
+            if removed:
+                wn.remove('*', progress_handler=None)
+                for i, v, _ in order:
+                    wn.add(files[f'{i}:{v}'], progress_handler=None)
+    finally:
+        for c in list(wn._db.pool.values()):
+            c.close()
+        wn._db.pool.clear()
+        wn.config.data_directory = old
+        shutil.rmtree(tmp, ignore_errors=True)
+    sess.add_bounded('wn.remove (removed == selected)', '4 lexicons (3 versions of one id) x 8 specifier lists', cases,
+                     'real database', not bad)
+    if bad:
+        sess.violation_direct('wn._add.remove:selection', 'wn.remove(specifier) removed lexicons other than those the '
+                              'specifier selects', {'witness': bad[0], 'failing_cases': len(bad)}, True,
+                              functions=('wn._add.remove', 'wn._queries.find_lexicons'))
+
+
 def run(sess: Session):
     sess.assume('A-GLOB', 'A-SPLIT', 'A-SQLITE', 'A-ENGINE')
     sess.trust('SQLite GLOB (meaning of the pattern) - exercised only by the bounded stand-in', 'z3 strings',
